@@ -19,6 +19,33 @@ import (
 	"github.com/zen-eth/shisui/storage"
 )
 
+// a panic of the decoder under test is an outcome of one case (the property says: rejected with an error), and the input is
+// handed over with capacity = length, as a packet read from the wire has
+func c15DecodeContents(b []byte) (xs [][]byte, err error) {
+	defer func() {
+		if e := recover(); e != nil {
+			xs, err = nil, fmt.Errorf("PANIC")
+		}
+	}()
+	return portalwire.VerifDecodeContents(append(make([]byte, 0, len(b)), b...))
+}
+func c15DecodeSingle(b []byte) (c, rest []byte, err error) {
+	defer func() {
+		if e := recover(); e != nil {
+			c, rest, err = nil, nil, fmt.Errorf("PANIC")
+		}
+	}()
+	return portalwire.VerifDecodeSingleContent(append(make([]byte, 0, len(b)), b...))
+}
+func c15DecodeUtp(p *portalwire.PortalProtocol, n *enode.Node, b []byte) (d []byte, err error) {
+	defer func() {
+		if e := recover(); e != nil {
+			d, err = nil, fmt.Errorf("PANIC")
+		}
+	}()
+	return p.VerifDecodeUtpContent(n, append(make([]byte, 0, len(b)), b...))
+}
+
 func init() { runners["C15"] = runC15 }
 
 var c15Lens = []int{0, 0, 1, 2, 5, 31, 126, 127, 128, 129, 255, 256, 300, 1000, 16382, 16383, 16384, 16385, 20000}
@@ -84,9 +111,16 @@ func peerNode(r *rand.Rand, versions []uint8, raw enr.Entry) *enode.Node {
 	return n
 }
 
+func errOrPanic(err error) string {
+	if err != nil && err.Error() == "PANIC" {
+		return "panic"
+	}
+	return "err"
+}
+
 func decResult(xs [][]byte, err error) string {
 	if err != nil {
-		return "err"
+		return errOrPanic(err)
 	}
 	return "ok " + canonItems(xs)
 }
@@ -105,11 +139,11 @@ func runC15(o *Out, r *rand.Rand, thorough bool, _ []string) {
 		return lens[r.Intn(len(lens))]
 	}
 	emitDec := func(tag string, b []byte) {
-		xs, err := portalwire.VerifDecodeContents(b)
+		xs, err := c15DecodeContents(b)
 		o.Case("dec "+bytesTerm(b), decResult(xs, err))
-		c, rest, err := portalwire.VerifDecodeSingleContent(b)
+		c, rest, err := c15DecodeSingle(b)
 		if err != nil {
-			o.Case("dec1 "+bytesTerm(b), "err")
+			o.Case("dec1 "+bytesTerm(b), errOrPanic(err))
 		} else {
 			o.Case("dec1 "+bytesTerm(b), "ok "+canon(c)+" "+canon(rest))
 		}
@@ -145,7 +179,7 @@ func runC15(o *Out, r *rand.Rand, thorough bool, _ []string) {
 		}
 		enc := portalwire.VerifEncodeContents(raw)
 		o.Case("enc "+termsString(ts), canon(enc))
-		back, err := portalwire.VerifDecodeContents(enc)
+		back, err := c15DecodeContents(enc)
 		same := err == nil && len(back) == len(raw)
 		if same {
 			for j := range raw {
@@ -161,7 +195,7 @@ func runC15(o *Out, r *rand.Rand, thorough bool, _ []string) {
 				if k == 0 && len(enc) > 1 {
 					cut = len(enc) - 1
 				}
-				xs, err := portalwire.VerifDecodeContents(enc[:cut])
+				xs, err := c15DecodeContents(enc[:cut])
 				o.Case(fmt.Sprintf("trunc %s %d", termsString(ts), cut), decResult(xs, err))
 			}
 		}
@@ -259,7 +293,7 @@ func runC15(o *Out, r *rand.Rand, thorough bool, _ []string) {
 			continue
 		}
 		o.Case("utpenc "+strconv.Itoa(v)+" "+t.String(), "ok "+canon(enc))
-		dec, err := p.VerifDecodeUtpContent(nodes[v], enc)
+		dec, err := c15DecodeUtp(p, nodes[v], enc)
 		o.Case("utprt "+strconv.Itoa(v)+" "+t.String(), map[bool]string{true: "same", false: "diff"}[err == nil && bytes.Equal(dec, data)])
 		// decoder on mutated / arbitrary streams
 		m := append([]byte{}, enc...)
@@ -280,9 +314,9 @@ func runC15(o *Out, r *rand.Rand, thorough bool, _ []string) {
 		case 3:
 			m = append([]byte{byte(len(m))}, m...)
 		}
-		d, err := p.VerifDecodeUtpContent(nodes[v], m)
+		d, err := c15DecodeUtp(p, nodes[v], m)
 		if err != nil {
-			o.Case("utpdec "+strconv.Itoa(v)+" "+bytesTerm(m), "err")
+			o.Case("utpdec "+strconv.Itoa(v)+" "+bytesTerm(m), errOrPanic(err))
 		} else {
 			o.Case("utpdec "+strconv.Itoa(v)+" "+bytesTerm(m), "ok "+canon(d))
 		}
